@@ -95,9 +95,16 @@ func (c *Catalog) tagsFromTagsDirective(d *directive.Directive) ([]*Tag, *jerr.J
 	}
 
 	tt := make([]*Tag, 0, d.UnnamedParametersLen())
+	seen := make(map[TagName]struct{}, d.UnnamedParametersLen())
 
 	for _, name := range d.UnnamedParameter() {
 		tn := TagName(name)
+
+		// A tag named twice still lists the interaction once (and vice versa).
+		if _, ok := seen[tn]; ok {
+			continue
+		}
+		seen[tn] = struct{}{}
 
 		t, ok := c.Tags.Get(tn)
 		if !ok {
